@@ -256,6 +256,20 @@ def run_impl(case):
     except Exception as e:   # the comparator itself must never raise on well-formed field data
         return {"raised": f"{type(e).__name__}: {e}"[:200], "src": sn, "ref": rn}
     entries = [(c.name, c.status.name) for c in suite]
+    # the same comparator object asked again (twice): every call is a complete comparison of its own, so the report must
+    # list every field exactly once each time (FieldDataComparator only; re-running a MeshFieldsComparator is C19's topic)
+    again = None
+    if case["kind"] != "meshcmp":
+        n_ev = len(events)
+        again = []
+        for _ in range(2):
+            try:
+                s2 = comparator(None if real else selector, callback)
+                again.append({"entries": sorted((c.name, c.status.name) for c in s2), "verdict": bool(s2),
+                              "dom": bool(s2.domain_equality_check)})
+            except Exception as e:  # noqa: BLE001
+                again.append({"raised": f"{type(e).__name__}: {e}"[:200]})
+        del events[n_ev:]
     buckets_ok = (all(c.status.name == "passed" for c in suite.passed)
                   and all(c.status.name in ("failed", "error") for c in suite.failed)
                   and all(c.status.name in ("missing_source", "missing_reference", "filtered") for c in suite.skipped)
@@ -268,6 +282,7 @@ def run_impl(case):
             "callbacks": [[e[1], e[2]] for e in events if e[0] == "cb"],
             "selector": [[e[1], e[2]] for e in events if e[0] == "sel"],
             "sel_names": [[e[3], e[4]] for e in events if e[0] == "sel"],
+            "again": again,
             "alternating": real or [e[0] for e in events] == ["sel", "cb"] * (len(events) // 2),
             "buckets_ok": buckets_ok}
 
@@ -684,6 +699,14 @@ def evaluate(ctx, cases):
                          "lean": rep})
         if rep is not None and rep.get("hyp") == "1":
             ctx.dist["inside-hyp"] += 1
+        for k2, a2 in enumerate(o.get("again") or []):
+            first = {"entries": [list(e) for e in o["entries"]], "verdict": o["verdict"], "dom": o["dom"]}
+            a2n = dict(a2, entries=[list(e) for e in a2["entries"]]) if "entries" in a2 else a2
+            if a2n != first:
+                ctx.violation(dict(c, repeated_call=k2 + 2), a2n, first, cls=None,
+                              what=f"call no. {k2 + 2} of the same FieldDataComparator object does not report every field "
+                                   "exactly once with the status of the first call")
+                break
         for prob in check_case(c, o, rep):
             kind, a, b, what = prob[:4]
             cls = prob[4] if len(prob) > 4 else None
@@ -896,6 +919,13 @@ def replay(ctx, payload):
     from fcv import core
     known = {e["class"] for e in core.load_findings("C11") if e["status"] == "known"}
     bad = []
+    for k2, a2 in enumerate(o.get("again") or []):
+        first = {"entries": [list(e) for e in o["entries"]], "verdict": o["verdict"], "dom": o["dom"]}
+        a2n = dict(a2, entries=[list(e) for e in a2["entries"]]) if "entries" in a2 else a2
+        if a2n != first:
+            print(f"replay: call no. {k2 + 2} of the same comparator object reports {a2n}, the first call {first}")
+            bad.append(("violation", a2n, first, "repeated call differs"))
+            break
     for p in probs:
         if len(p) > 4 and p[4] in known:
             print(f"replay: KNOWN-FINDING class {p[4]}: {p[3]}")
